@@ -12,6 +12,8 @@ error kind is compared with the model's state machine (correspondence) and with 
 """
 from __future__ import annotations
 
+import os
+
 import dataclasses
 import gc
 import typing
@@ -30,6 +32,8 @@ THEOREMS = [
     "Mashu.DiscrF.shared_registry_runs_parent_method",
     "Mashu.DiscrF.per_format_registry_ok",
     "Mashu.DiscrF.registry_pinned",
+    "Mashu.Discr.scan_order_is_preorder",
+    "Mashu.Discr.mem_eligible",
 ]
 RULE = (
     "history = interleaving of 'define class (parent, own tag or none)', 'create holder/decoder for root r' and 'decode input tagged t at root r' events; "
@@ -414,8 +418,11 @@ def judge_formats(ctx, rec, mf):
         if r.startswith("missingfield:"):
             continue   # judged against the statement in `judge`
         if k < len(ambiguous) and ambiguous[k]:
-            ctx.bump("ambiguous-tag-skipped")
-            continue
+            # outside the statement ("unique eligible class"), but the model visits the variants in the order of
+            # iter_all_subclasses (Discr.eligible), so model and implementation are still compared
+            ctx.bump("ambiguous-tag (model vs implementation only)")
+            if not os.environ.get("VERIF_C12_AMBIG"):
+                continue
         if o.startswith("inst:"):
             _i, c, b = o.split(":")
             exp = f"inst:{c}" if c == b else "error:instance of"
@@ -488,7 +495,11 @@ def judge(ctx, rec, out):
             par = {c[0]: c[1] for c in seen}
             elig = [c for c in seen if (h["sub"] and root in chain(par, c[0])[1:]) or (h["sup"] and c[0] == root)]
             if sum(1 for c in elig if c[2] == t) > 1:
-                ctx.bump("ambiguous-tag-skipped")
+                # the statement's "unique eligible class" is undefined here: only model vs implementation
+                ctx.bump("ambiguous-tag (model vs implementation only)")
+                if r != m and os.environ.get("VERIF_C12_AMBIG"):
+                    ctx.disagreement({"history": {**h, "events": h["events"][: k + 1]}, "event": k}, m, r, "discr (ambiguous tag)")
+                    return
                 continue
         ecase = {"history": {**h, "events": h["events"][: k + 1]}, "event": k}
         if r != s:
